@@ -215,9 +215,38 @@ def do_run(ids, tier, all_checks, props_extra):
   return rows
 
 
+def do_run_refactors(ids, tier):
+  """Re-apply the stored behaviour-preserving refactorings to scratch copies
+  of /repo and run their property's check: every one must stay silent."""
+  bad = 0
+  for d in sorted(glob.glob(os.path.join(HERE, "refactors", "*"))):
+    rid = os.path.basename(d)
+    if ids and rid not in ids:
+      continue
+    meta = json.load(open(os.path.join(d, "meta.json")))
+    tmp = tempfile.mkdtemp(prefix="verif-ref-")
+    try:
+      shutil.copytree("/repo/audiolazy", os.path.join(tmp, "audiolazy"),
+                      ignore=shutil.ignore_patterns("__pycache__"))
+      rc, out = sh(["patch", "-p1", "-s", "--no-backup-if-mismatch", "-i",
+                    os.path.join(d, "patch.diff")], cwd=tmp)
+      if rc:
+        print("%-10s PATCH-FAILS %s" % (rid, out[-150:].replace("\n", " ")))
+        continue
+      rc, keys = run_check(meta["property"], tmp, tier, SEED)
+      print("%-10s %-4s %-7s %s" % (rid, meta["property"],
+                                    {0: "silent", 1: "ALARM"}.get(rc, "rc=%d" % rc),
+                                    "; ".join(keys)[:200]), flush=True)
+      bad += rc != 0
+    finally:
+      shutil.rmtree(tmp, ignore_errors=True)
+  print("refactorings that were not silent:", bad)
+
+
 def main():
   ap = argparse.ArgumentParser()
-  ap.add_argument("cmd", choices=["import", "run", "import-refactor"])
+  ap.add_argument("cmd", choices=["import", "run", "import-refactor",
+                                  "run-refactors"])
   ap.add_argument("args", nargs="*")
   ap.add_argument("--tier", default="quick")
   ap.add_argument("--all-checks", action="store_true")
@@ -232,7 +261,9 @@ def main():
   SEED = a.seed
   global ALLCHECKS
   ALLCHECKS = a.all_checks
-  if a.cmd == "import-refactor":
+  if a.cmd == "run-refactors":
+    do_run_refactors(a.args, a.tier)
+  elif a.cmd == "import-refactor":
     do_import_refactor(a.args[0], a.args[1].upper())
   elif a.cmd == "import":
     do_import(a.args[0], a.args[1].upper(), a.tag)
